@@ -56,6 +56,12 @@ Explain ==
                     /\ Conform(IF Line.act.v > W.clk THEN WitW(W, Line.act.v) ELSE W, run)
     [] a = "adv" -> W.phase = "up" /\ ~run.busy /\ Conform(AdvW(W, Line.act.d), run)
     \* events pushed after a leave are dropped, by the main loop or by the shutdown drain loop
+    \* torn-tail class: the model's file without its last line is what the whole-lines cut replays to
+    [] a = "torn" ->
+         LET fs == IF run.busy /\ run.pc > 0 THEN run.c.out[run.pc].fs ELSE W.S.fs
+         IN  /\ Len(fs.cur.lines) > 0
+             /\ Line.obs.base = RecObs([fs EXCEPT !.cur.lines = SubSeq(@, 1, Len(@) - 1)])
+             /\ Conform(W, run)
     [] a = "burst" -> W.phase = "up" /\ ~run.busy /\ W.S.mem.lv /\ Conform(W, run)
     [] OTHER -> FALSE
 
@@ -68,7 +74,9 @@ Step ==
   /\ l' = l + 1
   /\ UNCHANGED <<last, steps>>
   /\ IF Line.act.a = "reset"
-     THEN /\ cfg' = CfgOf(Line.act.cfg) /\ W' = InitW /\ run' = NoRun /\ TM' = MonInit /\ div' = FALSE
+     THEN /\ cfg' = CfgOf(Line.act.cfg) /\ W' = InitW /\ run' = NoRun /\ TM' = MonInit
+          \* Serf-level histories (tag serf_level) are judged by the monitors only: no step-by-step conformance
+          /\ div' = \E i \in DOMAIN Line.act.cfg.tags : Line.act.cfg.tags[i] = "serf_level"
      ELSE /\ UNCHANGED cfg
           /\ TM' = MonStep(TM, Line.act, Line.obs)
           /\ IF div THEN UNCHANGED <<W, run, div>>
